@@ -68,6 +68,7 @@ func floor(s *slip.Scope, f slip.Object, args slip.List, depth int) slip.Values 
 		div = args[1]
 	}
 	num, div = slip.NormalizeNumber(num, div)
+	checkDivisor(s, depth, f, args, div)
 
 	switch tn := num.(type) {
 	case slip.Fixnum:
